@@ -60,13 +60,13 @@ theorem C10_gen_disconnect_probe :
     Pyro.Gen.C10.discProbe.length = 3 ∧ ∀ row ∈ Pyro.Gen.C10.discProbe, discModel row = row.2.2.2 := by
   decide
 
-/-- **C10_gen_facts.**  An `Exception` raised by `next(stream)` (StopIteration included) removes the stream
+/-- **C10_gen_facts.**  Every probe could be completed; an `Exception` raised by `next(stream)` (StopIteration included) removes the stream
     and reaches the caller unchanged; the proxy's sequence number wraps after 65535; the client iterator
     drops its proxy exactly after StopIteration / GeneratorExit; a user hook `clientDisconnect(conn)` that
     raises is called once and cannot skip the stream bookkeeping (`Settings.hookFails` only changes the
     reply of `disconnect`). -/
 theorem C10_gen_facts :
-    Pyro.Gen.C10.nextRemovesAndReraises = true ∧ Pyro.Gen.C10.seqMask = 65535 ∧
+    Pyro.Gen.C10.probeErrors = [] ∧ Pyro.Gen.C10.nextRemovesAndReraises = true ∧ Pyro.Gen.C10.seqMask = 65535 ∧
     Pyro.Gen.C10.hookCannotSkipBookkeeping = true ∧
     Pyro.Gen.C10.clientDropsProxyOn = ["StopIteration", "GeneratorExit"] := by
   decide
